@@ -46,7 +46,7 @@ fn case_strategy() -> BoxedStrategy<Case> {
                 Just(k),
                 2usize..=10,
                 proptest::collection::vec((any::<u16>(), proptest::collection::vec(0u8..4, 16..64)), 1..4),
-                proptest::collection::vec((any::<u16>(), any::<u16>(), proptest::collection::vec(0u8..4, 2..10)).prop_map(|(contig, pos, rots)| Site { contig, pos, rots }), 1..7),
+                proptest::collection::vec((any::<u16>(), any::<u16>(), prop_oneof![3 => proptest::collection::vec(0u8..4, 2..10), 1 => Just(vec![0u8, 0])]).prop_map(|(contig, pos, rots)| Site { contig, pos, rots }), 1..7),
                 proptest::collection::vec((any::<u8>(), any::<u16>()), 1..6),
                 prop::bool::weighted(0.15),
                 prop::bool::weighted(0.5),
@@ -92,7 +92,8 @@ fn materialise(c: &Case) -> Result<Mat, String> {
         let ai = model::BASES.iter().position(|b| *b == anc_base).unwrap();
         let mut alleles: Vec<u8> = (0..c.n_samples).map(|j| model::BASES[(ai + s.rots[j % s.rots.len()] as usize) % 4]).collect();
         if alleles.iter().all(|a| *a == alleles[0]) {
-            let j = si % c.n_samples;
+            // a site at which exactly one sample deviates: any sample, also the last ones
+            let j = (s.pos as usize / 7 + si) % c.n_samples;
             alleles[j] = model::BASES[(model::BASES.iter().position(|b| *b == alleles[j]).unwrap() + 1 + si % 3) % 4];
         }
         placed.push((ci, p, alleles));
